@@ -57,6 +57,10 @@ func (fx *fnExec) indexAnchors() map[ssa.Instruction]anchorInfo {
 				base = "return"
 			case *ssa.TypeAssert:
 				base = "typeassert"
+			case *ssa.Extract:
+				if _, ok := x.Tuple.(*ssa.Select); ok && x.Index >= 2 {
+					base = "selrecv"
+				}
 			case *ssa.MapUpdate:
 				base = "mapupdate"
 				if t := fx.nodeText[x.Pos()]; t != "" {
@@ -317,9 +321,6 @@ func (fx *fnExec) execInstr(st *state, in ssa.Instruction) {
 		if !strings.HasPrefix(o.term, "new!") {
 			fx.safetyObl("nil", in, x.Pos(), "field "+structOf(stT).Field(x.Field).Name(), "(not (= "+o.term+" 0))")
 		}
-		if fx.isOpaqueStruct(stT) {
-			fx.fail("field access into external struct %s", stT)
-		}
 		fx.vals[x] = val{addr: &addr{kind: aField, ref: o.term, st: stT, field: x.Field, base: ft, typ: ft}, typ: x.Type()}
 	case *ssa.Field:
 		o := fx.operand(st, x.X)
@@ -414,6 +415,10 @@ func (fx *fnExec) execInstr(st *state, in ssa.Instruction) {
 			fx.fail("extract from non-tuple %s", x.Tuple.Name())
 		}
 		fx.vals[x] = t.tuple[x.Index]
+		if _, ok := x.Tuple.(*ssa.Select); ok && x.Index >= 2 {
+			fx.applyJoins(st, in, t.tuple[x.Index])
+			fx.anchorGhostSets(st, in, map[string]sval{"recv": fx.toSval(t.tuple[x.Index])})
+		}
 	case *ssa.Phi:
 		var terms []string
 		var conds []string
@@ -507,6 +512,16 @@ func (fx *fnExec) execInstr(st *state, in ssa.Instruction) {
 			fx.assume(fmt.Sprintf("(and (<= 0 %s) (< %s %d))", idx, idx, n))
 		}
 		ts = append(ts, val{term: idx, typ: tInt}, val{term: fx.fresh(fx.vname(x)+"!ok", "Bool"), typ: tBool})
+		for i, s := range x.States {
+			// a receive from ctx.Done() completing means the context is done (so ctx.Err() != nil)
+			if c, ok := s.Chan.(*ssa.Call); ok && c.Call.IsInvoke() && c.Call.Method.Name() == "Done" {
+				if u, ok := fx.g.cs.UFs["ctxDone"]; ok {
+					fx.declareUF(u)
+					fx.assume(fmt.Sprintf("(=> (= %s %d) (ctxDone %s))", idx, i, fx.termOf(st, c.Call.Value)))
+					fx.assumptionsUsed["a receive from ctx.Done() completing implies ctx.Err() != nil (context package contract)"] = true
+				}
+			}
+		}
 		for _, s := range x.States {
 			if s.Dir == types.RecvOnly {
 				et := s.Chan.Type().Underlying().(*types.Chan).Elem()
@@ -618,6 +633,7 @@ func (fx *fnExec) execUnOp(st *state, x *ssa.UnOp) {
 		} else {
 			fx.vals[x] = val{term: rv, typ: x.Type()}
 		}
+		fx.applyJoins(st, x, val{term: rv, typ: et})
 		fx.anchorGhostSets(st, x, extra)
 	default:
 		fx.fail("unsupported unary op %s", x.Op)
@@ -940,6 +956,11 @@ func (fx *fnExec) finishReturns() {
 	for _, a := range fx.ct.Asserts {
 		if !fx.usedAnchors[a] {
 			fx.warnings = append(fx.warnings, fmt.Sprintf("%s: assert [%s] anchored at %s: no such site (or unreachable)", fx.fn.String(), a.Label, a.Anchor))
+		}
+	}
+	for _, a := range fx.ct.Joins {
+		if !fx.usedAnchors[a] {
+			fx.warnings = append(fx.warnings, fmt.Sprintf("%s: join anchored at %s: no such site (or unreachable)", fx.fn.String(), a.Anchor))
 		}
 	}
 	for _, a := range fx.ct.GhostSets {
